@@ -39,7 +39,7 @@ def sh(cmd, cwd=None, env=None, timeout=None):
 
 def build_harness():
     os.makedirs(BUILD, exist_ok=True)
-    shutil.copy("/repo/go.sum", os.path.join(HARNESS, "go.sum"))
+    shutil.copy(os.environ.get("VERIF_REPO", "/repo") + "/go.sum", os.path.join(HARNESS, "go.sum"))
     rc, out = sh(["go", "build", "-tags", "verif", "-o", os.path.join(BUILD, "drive"), "."], cwd=HARNESS,
                  env=GOENV, timeout=1200)
     if rc != 0:
